@@ -1,0 +1,238 @@
+//! Verification hook (cfg ordinals_ord_verif): thin `pub` wrappers over the
+//! crate-private storage encoders of the index (`Entry::{load,store}` for every
+//! persisted type, `UtxoEntryBuf` builders, `UtxoEntry::parse`,
+//! `UtxoEntryBuf::merged`). No logic of its own; with the guard off this file
+//! is not compiled.
+#![allow(dead_code)]
+
+use super::*;
+
+pub fn sat_range_store(range: (u64, u64)) -> [u8; 11] {
+  <SatRange as Entry>::store(range)
+}
+
+pub fn sat_range_load(value: [u8; 11]) -> (u64, u64) {
+  <SatRange as Entry>::load(value)
+}
+
+pub fn inscription_id_store(id: InscriptionId) -> (u128, u128, u32) {
+  id.store()
+}
+
+pub fn inscription_id_load(value: (u128, u128, u32)) -> InscriptionId {
+  InscriptionId::load(value)
+}
+
+pub fn rune_id_store(id: RuneId) -> (u64, u32) {
+  id.store()
+}
+
+pub fn rune_id_load(value: (u64, u32)) -> RuneId {
+  RuneId::load(value)
+}
+
+pub fn rune_store(rune: Rune) -> u128 {
+  rune.store()
+}
+
+pub fn rune_load(value: u128) -> Rune {
+  Rune::load(value)
+}
+
+pub type RuneEntryTuple = (
+  u64,
+  u128,
+  u8,
+  (u128, u128),
+  u128,
+  u64,
+  u128,
+  (u128, u32),
+  Option<char>,
+  Option<(
+    Option<u128>,
+    (Option<u64>, Option<u64>),
+    Option<u128>,
+    (Option<u64>, Option<u64>),
+  )>,
+  u64,
+  bool,
+);
+
+pub fn rune_entry_store(entry: RuneEntry) -> RuneEntryTuple {
+  entry.store()
+}
+
+pub fn rune_entry_load(value: RuneEntryTuple) -> RuneEntry {
+  RuneEntry::load(value)
+}
+
+/// Plain mirror of the crate-private `InscriptionEntry` (same fields, same order).
+#[derive(Debug, Clone, PartialEq, Eq)]
+pub struct InscriptionEntryFields {
+  pub charms: u16,
+  pub fee: u64,
+  pub height: u32,
+  pub hidden: bool,
+  pub id: InscriptionId,
+  pub inscription_number: i32,
+  pub parents: Vec<u32>,
+  pub sat: Option<Sat>,
+  pub sequence_number: u32,
+  pub timestamp: u32,
+}
+
+pub type InscriptionEntryTuple = (
+  u16,
+  u64,
+  u32,
+  bool,
+  (u128, u128, u32),
+  i32,
+  Vec<u32>,
+  Option<u64>,
+  u32,
+  u32,
+);
+
+pub fn inscription_entry_store(f: InscriptionEntryFields) -> InscriptionEntryTuple {
+  InscriptionEntry {
+    charms: f.charms,
+    fee: f.fee,
+    height: f.height,
+    hidden: f.hidden,
+    id: f.id,
+    inscription_number: f.inscription_number,
+    parents: f.parents,
+    sat: f.sat,
+    sequence_number: f.sequence_number,
+    timestamp: f.timestamp,
+  }
+  .store()
+}
+
+pub fn inscription_entry_load(value: InscriptionEntryTuple) -> InscriptionEntryFields {
+  let e = InscriptionEntry::load(value);
+  InscriptionEntryFields {
+    charms: e.charms,
+    fee: e.fee,
+    height: e.height,
+    hidden: e.hidden,
+    id: e.id,
+    inscription_number: e.inscription_number,
+    parents: e.parents,
+    sat: e.sat,
+    sequence_number: e.sequence_number,
+    timestamp: e.timestamp,
+  }
+}
+
+pub fn outpoint_store(outpoint: OutPoint) -> [u8; 36] {
+  outpoint.store()
+}
+
+pub fn outpoint_load(value: [u8; 36]) -> OutPoint {
+  OutPoint::load(value)
+}
+
+pub fn satpoint_store(satpoint: SatPoint) -> [u8; 44] {
+  satpoint.store()
+}
+
+pub fn satpoint_load(value: [u8; 44]) -> SatPoint {
+  SatPoint::load(value)
+}
+
+pub fn txid_store(txid: Txid) -> [u8; 32] {
+  txid.store()
+}
+
+pub fn txid_load(value: [u8; 32]) -> Txid {
+  Txid::load(value)
+}
+
+pub fn header_store(header: Header) -> [u8; 80] {
+  header.store()
+}
+
+pub fn header_load(value: [u8; 80]) -> Header {
+  Header::load(value)
+}
+
+/// One call of a `UtxoEntryBuf` builder method.
+#[derive(Debug, Clone)]
+pub enum UtxoOp {
+  Value(u64),
+  SatRanges(Vec<u8>),
+  ScriptPubkey(Vec<u8>),
+  Inscriptions(Vec<u8>),
+  Inscription(u32, u64),
+}
+
+fn utxo_bytes(entry: &UtxoEntry) -> Vec<u8> {
+  <&UtxoEntry as redb::Value>::as_bytes(&entry).to_vec()
+}
+
+/// `UtxoEntryBuf::new()`, the given builder calls in order, `as_ref()`, bytes.
+pub fn utxo_build(index: &Index, ops: &[UtxoOp]) -> Vec<u8> {
+  let mut buf = UtxoEntryBuf::new();
+  for op in ops {
+    match op {
+      UtxoOp::Value(value) => buf.push_value(*value, index),
+      UtxoOp::SatRanges(ranges) => buf.push_sat_ranges(ranges, index),
+      UtxoOp::ScriptPubkey(script) => buf.push_script_pubkey(script, index),
+      UtxoOp::Inscriptions(raw) => buf.push_inscriptions(raw, index),
+      UtxoOp::Inscription(sequence_number, offset) => {
+        buf.push_inscription(*sequence_number, *offset, index)
+      }
+    }
+  }
+  utxo_bytes(buf.as_ref())
+}
+
+pub fn utxo_empty(index: &Index) -> Vec<u8> {
+  utxo_bytes(UtxoEntryBuf::empty(index).as_ref())
+}
+
+pub fn utxo_merged(index: &Index, a: &[u8], b: &[u8]) -> Vec<u8> {
+  let a = <&UtxoEntry as redb::Value>::from_bytes(a);
+  let b = <&UtxoEntry as redb::Value>::from_bytes(b);
+  utxo_bytes(UtxoEntryBuf::merged(a, b, index).as_ref())
+}
+
+/// Everything `UtxoEntry::parse` and the accessors of `ParsedUtxoEntry` return
+/// for the components the index flags enable.
+#[derive(Debug, Clone, PartialEq, Eq)]
+pub struct UtxoParsed {
+  pub total_value: u64,
+  pub sat_ranges: Option<Vec<u8>>,
+  pub script_pubkey: Option<Vec<u8>>,
+  pub inscriptions_raw: Option<Vec<u8>>,
+  pub inscriptions: Option<Vec<(u32, u64)>>,
+}
+
+pub fn utxo_parse(index: &Index, bytes: &[u8]) -> UtxoParsed {
+  let entry = <&UtxoEntry as redb::Value>::from_bytes(bytes);
+  let parsed = entry.parse(index);
+  UtxoParsed {
+    total_value: parsed.total_value(),
+    sat_ranges: index.index_sats.then(|| parsed.sat_ranges().to_vec()),
+    script_pubkey: index
+      .index_addresses
+      .then(|| parsed.script_pubkey().to_vec()),
+    inscriptions_raw: index
+      .index_inscriptions
+      .then(|| parsed.inscriptions().to_vec()),
+    inscriptions: index
+      .index_inscriptions
+      .then(|| parsed.parse_inscriptions()),
+  }
+}
+
+pub fn utxo_flags(index: &Index) -> (bool, bool, bool) {
+  (
+    index.index_sats,
+    index.index_addresses,
+    index.index_inscriptions,
+  )
+}
